@@ -148,6 +148,18 @@ def dedupe(outs):
     return res
 
 
+_MEMO = {}
+
+
+def _memo(f):
+    def g(*ns):
+        k = (f.__name__,) + tuple(id(n) for n in ns)
+        if k not in _MEMO:
+            _MEMO[k] = (ns, f(*ns))
+        return _MEMO[k][1]
+    return g
+
+
 class TooManyStates(Exception):
     pass
 
@@ -174,6 +186,7 @@ class Interp:
         self.check_loops = check_loops
         self.calls = []       # (callee, delta of the ctx argument relative to P) for the recursion rule
         self.inline_depth = 0
+        self.record_sites = check_loops
         self.entry_tok = entry_tok
 
     # ---- roots
@@ -313,6 +326,8 @@ class Interp:
         outs = self.ev(n["e"], st)
         if n.get("op") == "Deref":
             return outs
+        if n.get("op") == "Not":
+            return [((("b", not v[1]) if v[0] == "b" else OPAQUE), s) for v, s in outs]
         return [(OPAQUE, s) for _, s in outs]
 
     def ev_Tup(self, n, st):
@@ -440,7 +455,7 @@ class Interp:
                 if cur[0] == "c" and l["name"] == "curr":
                     out.append((OPAQUE, s.set(base["hid"], TOPC("t7"))))
                 elif cur[0] == "c":
-                    out.append((OPAQUE, s.set(base["hid"], ("c", cur[1], cur[2], None if l["name"] == "skip_newlines" else cur[3]))))
+                    out.append((OPAQUE, s.set(base["hid"], ("c", cur[1], cur[2], cur[3]))))
                 else:
                     out.append((OPAQUE, s))
             else:
@@ -450,6 +465,18 @@ class Interp:
     def ev_AssignOp(self, n, st):
         out = []
         l = peel(n["l"])
+        if l.get("k") == "Path" and l.get("res") == "Local" and n.get("op") in ("BitOr", "BitOrAssign", "BitAnd", "BitAndAssign"):
+            for v, s in self.ev(n["r"], st):
+                old = s.env.get(l["hid"]) or OPAQUE
+                is_or = n["op"].startswith("BitOr")
+                new = OPAQUE
+                for x in (old, v):
+                    if x[0] == "b" and x[1] == is_or:
+                        new = ("b", is_or)           # true | _ = true, false & _ = false
+                if new == OPAQUE and old[0] == "b" and v[0] == "b":
+                    new = ("b", (old[1] or v[1]) if is_or else (old[1] and v[1]))
+                out.append((OPAQUE, s.set(l["hid"], new)))
+            return out
         for v, s in self.ev(n["r"], st):
             if l.get("k") == "Field" and l["name"] == "curr" and peel(l["e"]).get("k") == "Path":
                 base = peel(l["e"])
@@ -536,6 +563,8 @@ class Interp:
                 ts += t2
                 fs += f2
             return ts, fs
+        if c0.get("k") == "Path" and c0.get("res") == "Local" and (st.env.get(c0["hid"]) or OPAQUE)[0] == "b":
+            return ([st], []) if st.env[c0["hid"]][1] else ([], [st])
         test = self.token_test(c0, st)
         if test is not None:
             hid, names = test
@@ -636,6 +665,12 @@ class Interp:
 
     def ev_Match(self, n, st):
         out = []
+        tt = self.token_test(n, st)
+        if tt is not None:
+            # matches!(x.token(), ..) used as a value: one state per outcome, each knowing what the token is
+            hid, names = tt
+            return [(("b", True), s) for s in self.refine(st, hid, ("in", names))] + \
+                   [(("b", False), s) for s in self.refine(st, hid, ("notin", names))]
         th = self.token_scrut(n["scrut"])
         sc0 = peel(n["scrut"])
         if th is None and sc0.get("k") == "Tup" and sc0["es"] and self.token_scrut(sc0["es"][0]) is not None and \
@@ -727,6 +762,8 @@ class Interp:
     def loop(self, n, st, cond, body, label):
         carried_all = assigned_locals(body) | (assigned_locals(cond) if cond else set())
         carried = [h for h in sorted(carried_all) if (st.env.get(h) or OPAQUE)[0] == "c"]
+        # booleans and vectors of the enclosing code that the loop changes
+        aux = [h for h in sorted(carried_all | mutated_locals(body)) if (st.env.get(h) or OPAQUE)[0] in ("b", "v")]
         # cursors of the enclosing code whose token the loop looks at but which it never moves
         tested = sorted(h for h in token_reads(cond, body) if (st.env.get(h) or OPAQUE)[0] == "c" and h not in carried)
         # entry roots R (the value at loop entry) - used to peel the first iteration, which keeps what is known about the
@@ -772,7 +809,10 @@ class Interp:
             failures.append(("stuck", backs0[0]))
         if backs0 and not carried:
             # not driven by a cursor: nothing to prove here; one more generic pass for the values that leave the loop
-            one_iteration(entry)
+            g = entry
+            for h in aux:
+                g = g.set(h, ("v", 0) if entry.env[h][0] == "v" else OPAQUE)
+            one_iteration(g)
         if backs0 and carried:
             # the generic iteration: every carried cursor is at least where the first iteration left it
             roots = {}
@@ -789,6 +829,8 @@ class Interp:
                 # the generic head stands for the head of *any* iteration, the first included
                 self.parent[r] = (roots0[h], 0 if d1 in ("EQ", None) else (0 if d1 != "TOP" else "TOP"))
                 head = head.set(h, ("c", r, "EQ", None))
+            for h in aux:
+                head = head.set(h, ("v", 0) if entry.env[h][0] == "v" else OPAQUE)
             dead |= set(roots.values())
             # exits of later iterations are at least d1 further than the entry: a second root whose parent carries d1
             later = {}
@@ -804,6 +846,11 @@ class Interp:
                 later[h] = r
                 self.parent[r] = (roots0[h], 0 if d1 == "EQ" else d1)
                 head_later = head_later.set(h, ("c", r, "EQ", None))
+            for h in aux:
+                if entry.env[h][0] == "v":
+                    head_later = head_later.set(h, ("v", min([(b_.env.get(h) or ("v", 0))[1] if (b_.env.get(h) or OPAQUE)[0] == "v" else 0 for b_ in backs0])))
+                else:
+                    head_later = head_later.set(h, OPAQUE)
             dead |= set(later.values())
             seen = set()
             on_stack = set()
@@ -832,6 +879,8 @@ class Interp:
                     on_stack.discard(k)
 
             # (a) progress, for the head of any iteration (exits of this run are not used: they are covered below)
+            rec = self.record_sites
+            self.record_sites = False
             iterate(head, 0, False, roots, False)
             # (b) at the end of the input the loop must be left
             if self.check_loops:
@@ -839,11 +888,29 @@ class Interp:
                 for h in carried:
                     h_eof = h_eof.set(h, ("c", roots[h], "EQ", ("in", frozenset(["EOF"]))))
                 iterate(h_eof, 0, True, roots, False)
-            # values that leave the loop after the first iteration
-            seen.clear()
-            fl_before = len(failures)
-            iterate(head_later, 0, False, later, True)
-            del failures[fl_before:]
+            self.record_sites = rec
+            # values that leave the loop after the first iteration (vectors only grow by what every iteration adds: if an
+            # iteration can leave fewer elements than it found, start again from that)
+            for _ in range(4):
+                seen.clear()
+                fl_before = len(failures)
+                ex_before = len(exits)
+                shrunk = False
+                backs_seen = []
+                orig_one = one_iteration
+
+                iterate(head_later, 0, False, later, True)
+                del failures[fl_before:]
+                for h in aux:
+                    if head_later.env[h][0] != "v":
+                        continue
+                    low = min([s_.env[h][1] for _, s_ in exits[ex_before:] if (s_.env.get(h) or OPAQUE)[0] == "v"] + [head_later.env[h][1]])
+                    if low < head_later.env[h][1]:
+                        head_later = head_later.set(h, ("v", low))
+                        shrunk = True
+                if not shrunk:
+                    break
+                del exits[ex_before:]
         self.loop_results.append(dict(node=n, carried=[st_name(self.fn, h) for h in carried + tested], failures=failures,
                                       token_driven=bool(carried) or bool(tested)))
         res = []
@@ -875,7 +942,9 @@ class Interp:
                 res.append((self.shape_of_type(n.get("ty"), fill), s))
             return res
         for vals, s in outs:
-            if c.endswith("core::result::Result::Ok") and vals:
+            if c.endswith("vec::Vec::new") or c.endswith("vec::Vec::<T>::new"):
+                res.append((("v", 0), s))
+            elif c.endswith("core::result::Result::Ok") and vals:
                 res.append((("r", vals[0], None), s))
             elif c.endswith("core::result::Result::Err") and vals:
                 res.append((("r", None, vals[0]), s))
@@ -883,8 +952,37 @@ class Interp:
                 res += self.apply(n, c, n["args"], vals, s)
         return res
 
+    VEC_KEEP = ("len", "is_empty", "iter", "last", "first", "get", "clone", "contains", "as_slice", "to_vec", "iter_mut", "last_mut", "first_mut")
+
     def ev_MethodCall(self, n, st):
         c = callee(n) or ""
+        r0 = peel(n["recv"])
+        if r0.get("k") == "Path" and r0.get("res") == "Local" and (st.env.get(r0["hid"]) or OPAQUE)[0] == "v":
+            # a vector built here: how many elements it holds at least
+            res = []
+            for vals, s in self.ev_seq(n["args"], st):
+                cur = s.env.get(r0["hid"]) or OPAQUE
+                ln = cur[1] if cur[0] == "v" else 0
+                m = n["m"]
+                if m == "push":
+                    s = s.set(r0["hid"], ("v", min(MAXD, ln + 1)))
+                elif m == "insert":
+                    s = s.set(r0["hid"], ("v", min(MAXD, ln + 1)))
+                elif m in ("remove", "swap_remove"):
+                    a = peel(n["args"][0]) if n["args"] else {}
+                    idx = a.get("v") if a.get("k") == "Lit" and isinstance(a.get("v"), int) else None
+                    if self.record_sites:
+                        self.A.note_site(self.fn, n, "%s.%s(%s)" % (r0["name"], m, idx if idx is not None else ".."),
+                                         idx is not None and ln > idx, s)
+                    s = s.set(r0["hid"], ("v", max(0, ln - 1)))
+                elif m == "pop":
+                    s = s.set(r0["hid"], ("v", max(0, ln - 1)))
+                elif m in self.VEC_KEEP:
+                    pass
+                else:
+                    s = s.set(r0["hid"], ("v", 0))
+                res.append((self.shape_of_type(n.get("ty"), TOPC("vecm")) if has_ctx_ty(n.get("ty")) else OPAQUE, s))
+            return res
         args = [n["recv"]] + n["args"]
         outs = self.ev_seq(args, st)
         res = []
@@ -920,6 +1018,7 @@ class Interp:
             return self.inline_call(n, A.inline[c], arg_nodes, vals, st)
         if c in A.summaries:
             sm = A.summaries[c]
+            A.reading.add(("plain", c))
             idx = sm["ctx_index"]
             if idx is not None and idx < len(vals) and vals[idx][0] == "c":
                 a = vals[idx]
@@ -979,6 +1078,7 @@ class Interp:
         sub.parent = self.parent
         sub.nroot = self.nroot + 1000 * (self.inline_depth + 1)
         sub.inline_depth = self.inline_depth + 1
+        sub.record_sites = False
         outs = sub.ev(fn_body(fn), State(env, st.trail))
         allv = [v for v, _ in outs] + [v for v, _ in sub.returns]
         own = {r for r in sub.parent if r not in before}
@@ -1067,6 +1167,7 @@ def pattern_tokens(pat, kind):
     return frozenset(names)
 
 
+@_memo
 def token_reads(*ns):
     """hids of local cursors whose token()/tokens_lookahead() is read under the given nodes"""
     out = set()
@@ -1081,6 +1182,18 @@ def token_reads(*ns):
     return out
 
 
+@_memo
+def mutated_locals(n):
+    """locals that are the receiver of a method call which may change them (vectors: push / pop / ..)"""
+    out = set()
+    for x in nodes(n, "MethodCall"):
+        r = peel(x["recv"])
+        if r.get("k") == "Path" and r.get("res") == "Local" and x["m"] not in Interp.VEC_KEEP:
+            out.add(r["hid"])
+    return out
+
+
+@_memo
 def assigned_locals(n):
     out = set()
     for x in nodes(n):
@@ -1104,9 +1217,15 @@ def arm_label(a):
     return ppat(a["pat"])[:28]
 
 
+_LB = {}
+
+
 def st_name(fn, hid):
     from hir import local_bindings
-    b = local_bindings(fn).get(hid)
+    k = id(fn)
+    if k not in _LB:
+        _LB[k] = (fn, local_bindings(fn))
+    b = _LB[k][1].get(hid)
     return b["name"] if b else hid
 
 
@@ -1143,6 +1262,9 @@ class Analysis:
         self.closures = {}
         self.spec = {}
         self.spec_new = False
+        self.in_fixpoint = False
+        self.sites = {}
+        self.reading = set()
         self.prev_unsafe = []
         self.assumed_callables = set()
         for p, (fn, idx) in self.cands.items():
@@ -1151,10 +1273,20 @@ class Analysis:
         self.problems = []
         self.fixpoint()
 
+    def note_site(self, fn, node, what, ok, st):
+        k = (fn.get("_path", "?"), what)
+        e = self.sites.setdefault(k, dict(ok=True, where=line_of(node), trails=[]))
+        if not ok:
+            e["ok"] = False
+            if len(e["trails"]) < 3:
+                e["trails"].append(" -> ".join(st.trail[-8:]))
+
     def specialised(self, p, tok):
         """what `p` returns when the token under its cursor satisfies `tok`: a summary per (callee, fact), part of the
         same greatest fixed point as the plain summaries ("none" = no return at all, the optimistic start)"""
         k = (p, tok)
+        self.reading.add(("spec", p, tok))
+        self.reading.add(("plain", p))
         if k not in self.spec:
             if not self.in_fixpoint:
                 return self.summaries[p]["ret"]      # a fact first met after the fixed point: the plain summary is sound
@@ -1190,60 +1322,72 @@ class Analysis:
             self.in_fixpoint = False
 
     def fixpoint_(self):
-        for rnd in range(30):
-            changed = False
+        """chaotic iteration: an entry (function, or function + token fact) is recomputed when an entry it read changed"""
+        self.deps = {}         # entry -> set of entries read when it was last computed
+        dirty = set(("plain", p) for p in self.cands)
+        for rnd in range(60):
             self.spec_new = False
-            for p in sorted(self.cands):
-                try:
-                    it, rets = self.run_fn(p)
-                    it2, rets_eof = self.run_fn(p, entry_tok=("in", frozenset(["EOF"])))
-                except TooManyStates as ex:
-                    self.problems.append("%s: too many abstract states (%s)" % (p, ex))
+            changed = set()
+            for key in sorted(dirty, key=str):
+                self.reading = set()
+                if key[0] == "plain":
+                    p = key[1]
+                    try:
+                        it, rets = self.run_fn(p)
+                        it2, rets_eof = self.run_fn(p, entry_tok=("in", frozenset(["EOF"])))
+                    except TooManyStates as ex:
+                        self.problems.append("%s: too many abstract states (%s)" % (p, ex))
+                        cur = self.summaries[p]
+                        new = dict(cur, ret=Interp(self, self.cands[p][0]).top_like(cur["ret"]) if cur["ret"] else None, eof_ok=True)
+                        if new != cur:
+                            self.summaries[p] = new
+                            changed.add(key)
+                        continue
+                    joined = self._joined(it, rets)
+                    eof_ok = any(v[0] == "r" and v[1] is not None for v in rets_eof) or any(v[0] in ("c", "t") for v in rets_eof)
                     cur = self.summaries[p]
-                    new = dict(cur, ret=Interp(self, self.cands[p][0]).top_like(cur["ret"]) if cur["ret"] else None, eof_ok=True)
+                    new_ret = joined if cur["ret"] is not None else None
+                    if joined is None and cur["ret"] is not None:
+                        new_ret = cur["ret"]
+                    if new_ret is not None and cur["ret"] is not None and new_ret[0] != cur["ret"][0]:
+                        new_ret = it.top_like(cur["ret"])
+                    new = dict(ctx_index=cur["ctx_index"], ret=new_ret, eof_ok=eof_ok)
                     if new != cur:
                         self.summaries[p] = new
-                        changed = True
-                    continue
-                joined = self._joined(it, rets)
-                eof_ok = any(v[0] == "r" and v[1] is not None for v in rets_eof) or any(v[0] in ("c", "t") for v in rets_eof)
-                cur = self.summaries[p]
-                new_ret = joined if cur["ret"] is not None else None
-                if joined is None and cur["ret"] is not None:
-                    new_ret = cur["ret"]
-                if new_ret is not None and cur["ret"] is not None and new_ret[0] != cur["ret"][0]:
-                    new_ret = it.top_like(cur["ret"])
-                new = dict(ctx_index=cur["ctx_index"], ret=new_ret, eof_ok=eof_ok)
-                if new != cur:
-                    self.summaries[p] = new
-                    changed = True
-            for k in sorted(self.spec, key=lambda k_: (k_[0], k_[1][0], sorted(k_[1][1]))):
-                p, tok = k
-                plain = self.summaries[p]["ret"]
-                try:
-                    it, rets = self.run_fn(p, entry_tok=tok)
-                    joined = self._joined(it, rets)
-                except TooManyStates as ex:
-                    joined = plain
-                if joined is None:
-                    new = "none"
-                elif plain is not None and joined[0] != plain[0]:
-                    new = plain
+                        changed.add(key)
                 else:
-                    new = joined
-                if new != self.spec[k]:
-                    self.spec[k] = new
-                    changed = True
-            if not changed and not self.spec_new:
+                    _, p, tok = key
+                    plain = self.summaries[p]["ret"]
+                    try:
+                        it, rets = self.run_fn(p, entry_tok=tok)
+                        joined = self._joined(it, rets)
+                    except TooManyStates:
+                        joined = plain
+                    if joined is None:
+                        new = "none"
+                    elif plain is not None and joined[0] != plain[0]:
+                        new = plain
+                    else:
+                        new = joined
+                    if new != self.spec[(p, tok)]:
+                        self.spec[(p, tok)] = new
+                        changed.add(key)
+                self.deps[key] = self.reading
+            self.reading = set()
+            dirty = set(k for k, ds in self.deps.items() if ds & changed)
+            dirty |= set(("spec", p, tok) for (p, tok) in self.spec if ("spec", p, tok) not in self.deps)
+            if not dirty:
                 # the loop checks and callback checks meet further (callee, fact) pairs: they belong to the same fixed point
                 self.loops()
                 self.callable_checks()
                 self.prev_unsafe = []
-                if not self.spec_new:
+                self.sites = {}
+                dirty = set(("spec", p, tok) for (p, tok) in self.spec if ("spec", p, tok) not in self.deps)
+                if not dirty:
                     self.rounds = rnd + 1
                     return
-        self.rounds = 30
-        self.problems.append("summaries did not stabilise in 30 rounds")
+        self.rounds = 60
+        self.problems.append("summaries did not stabilise in 60 rounds")
 
     def callable_checks(self):
         """every callable handed to a parameter of type `impl Fn(Context) -> ..`: (caller, what, ok, detail)"""
